@@ -88,6 +88,17 @@ JudgeTest(r, name, ov) ==
                              "test " \o name \o ": number of executed instructions differs")>>
                   ELSE IF fdiff # {} /\ id.v # "unspec"
                     THEN <<V(r.id, "drift", "", "test " \o name \o ": assertions matched at a step differ from the model")>>
+                  (* implementation facts (tier 2): bits 5/4 of the emulator's status register stay 1/0 in the test runner
+                     (no brk is executed, no interrupt is pending); where the property is silent because of decimal mode the
+                     machine follows the implementation-shaped path (adc/sbc binary although D is set) *)
+                  ELSE IF \E i \in 1..Len(run.steps) : (run.steps[i].p \div 16) % 4 # 2
+                    THEN <<V(r.id, "drift", "", "test " \o name \o ": bits 5/4 of the status register are not 1/0")>>
+                  ELSE IF o.status = "unspec"
+                    THEN LET mp == MirrorPath(T)
+                             k == IF Len(run.steps) < Len(mp) THEN Len(run.steps) ELSE Len(mp) IN
+                         IF \E i \in 1..k : ~SameRegs(Masked(run.steps[i]), mp[i])
+                           THEN <<V(r.id, "drift", "", "test " \o name \o ": machine departs from the implementation-shaped path (decimal flag ignored)")>>
+                           ELSE <<V(r.id, "stat", "mirror", ToString(k))>>
                   ELSE <<>>
   IN <<V(r.id, "stat", id.v, ToString(id.i))>> \o verdictRows \o traceRows
 
